@@ -115,7 +115,9 @@ impl SlidingLogState {
             let time_until_slot = oldest
                 .checked_add(self.window_duration)
                 .map(|expiry| expiry.saturating_duration_since(now))
-                .unwrap_or(Duration::ZERO);
+                // A window too long to be represented never frees a slot; Ok(ZERO) would be
+                // read by acquire() as "permit taken" and admit the call unrecorded.
+                .unwrap_or(Duration::MAX);
 
             if time_until_slot > self.timeout_duration {
                 Err(self.timeout_duration)
